@@ -185,6 +185,11 @@ pub fn drive(ver: Ver, input: &[u8], cuts: &[usize], max_size: u32, min_chunk: u
                             }
                         }
                         Item::Chunk(b, eof) => {
+                            if b.is_empty() && !*eof {
+                                // "decoding terminates": a caller that decodes until need-more would spin for ever
+                                out.push(fnd("no-progress", format!("{} decoder: empty payload piece that is not the end", vname(ver)), "decode handed out an empty, non-final payload piece without consuming input".to_string(), inp()));
+                                break 'outer;
+                            }
                             if let Some((fe, rem)) = in_publish {
                                 if b.len() > rem || (*eof != (b.len() == rem)) {
                                     out.push(fnd(
